@@ -175,6 +175,9 @@ func registerSym() {
 		// equal as PromQL values: both NaN or IEEE-equal (signed zeros identified)
 		a, _ := floatTerm(args[0])
 		b, _ := floatTerm(args[1])
+		if a == b {
+			return true
+		}
 		return mkBool(smt.Or(smt.And(smt.FIsNaN(a), smt.FIsNaN(b)), smt.FEq(a, b)))
 	})
 	regSym("IsStale", func(fr *frame, args []value) value {
